@@ -476,7 +476,7 @@ impl Prop for C10 {
     }
 
     fn run_wall_limit_s() -> u64 {
-        60
+        900
     }
 
     fn panics_are_violations() -> bool {
@@ -546,7 +546,7 @@ impl Prop for C08Pool {
     }
 
     fn run_wall_limit_s() -> u64 {
-        60
+        900
     }
 
     fn generate(r: &mut Rng, tier: Tier, _idx: u64) -> Scn {
@@ -589,7 +589,7 @@ impl Prop for C01Pool {
     }
 
     fn run_wall_limit_s() -> u64 {
-        60
+        900
     }
 
     fn generate(r: &mut Rng, tier: Tier, _idx: u64) -> Scn {
@@ -669,7 +669,7 @@ impl Prop for C15Pool {
     }
 
     fn run_wall_limit_s() -> u64 {
-        60
+        900
     }
 
     fn generate(r: &mut Rng, tier: Tier, _idx: u64) -> Scn {
